@@ -87,6 +87,69 @@ pub fn run(thorough: bool, mut rng: Rng, mut out: Out) {
             out.r(&format!("leaks.corpus {}", name), clean, &format!("{} | {}", d, ev));
         }
     }
+    // Abandon (C13, last sentence), not vacuous: the caller still waiting on the abandoned operation is RELEASED
+    // with an error (a single operation's future; a stream's pending or next `next()`, after the items that
+    // had already been routed to it), the AbandonRequest on the wire names the given ID, and that ID is free.
+    let nab = if thorough { 300 } else { 30 };
+    for k in 0..nab {
+        let search = k % 3 != 0;
+        let queued = if search { rng.below(3) as usize } else { 0 };
+        let waiting = rng.chance(1, 2); // a next() is already pending when the Abandon is issued
+        let mut sc = vec![Step::Issue { kind: if search { OpKind::Search } else { OpKind::Single }, tmo_ms: if rng.chance(1, 4) { Some(60_000) } else { None } }, Step::Settle];
+        let bystander = rng.chance(1, 2);
+        if bystander {
+            sc.push(Step::Issue { kind: OpKind::Single, tmo_ms: None }); // id 2: must not be disturbed
+            sc.push(Step::Settle);
+        }
+        for _ in 0..queued {
+            sc.push(Step::Send { id: 1, op: 4, good: false });
+        }
+        sc.push(Step::Settle);
+        if search && waiting && queued == 0 {
+            sc.push(Step::Next(0));
+            sc.push(Step::Settle);
+        }
+        sc.push(Step::Issue { kind: OpKind::Abandon(1), tmo_ms: None });
+        sc.push(Step::Settle);
+        sc.push(Step::Table);
+        if search {
+            for _ in 0..queued + 1 {
+                sc.push(Step::Next(0));
+                sc.push(Step::Settle);
+            }
+        }
+        if bystander {
+            sc.push(Step::Send { id: 2, op: 11, good: true });
+            sc.push(Step::Settle);
+        }
+        // a late answer under the abandoned ID is nobody's
+        sc.push(Step::Send { id: 1, op: if search { 5 } else { 11 }, good: true });
+        sc.push(Step::Settle);
+        let o = run_script(&sc);
+        let ev = to_model_events(&o.trace);
+        let label = format!("abandon#{} {} queued={} waiting={} bystander={}", k, if search { "search" } else { "single" }, queued, waiting, bystander);
+        out.case(&format!("{} {}", label, ev), true);
+        out.stat("abandon.scenarios");
+        out.m(&format!("conn.trace {}", ev), "accept");
+        let has = |p: &str| o.trace.iter().any(|t| t == p || t.starts_with(p));
+        let released = if search {
+            let items = o.trace.iter().filter(|t| t.starts_with("cli next 0 ") && t.contains("item:entry:")).count();
+            items == queued && o.trace.iter().any(|t| t.starts_with("cli next 0 ") && t.ends_with(" closed"))
+        } else {
+            has("cli done 0 recverr")
+        };
+        out.r(&format!("leaks.abandon-releases-the-waiting-caller-with-an-error {}", label), released && o.watchdog_stuck.is_empty(), &ev);
+        // the wire: an AbandonRequest `[APPLICATION 16] 01` (primitive, value = the ID) under the Abandon's own message ID
+        let w = o.net.take_written();
+        let named = w.windows(3).any(|x| x == [0x50, 0x01, 0x01]);
+        out.r(&format!("leaks.abandon-request-names-the-id {}", label), named, &crate::fmtx::hex(&w));
+        let tbl = o.trace.iter().find(|t| t.starts_with("tbl ")).cloned().unwrap_or_default();
+        let free = !tbl.trim_end_matches(']').split(|c| c == '[' || c == ',').skip(1).any(|x| x == "1");
+        out.r(&format!("leaks.abandoned-id-is-free {}", label), free, &tbl);
+        if bystander {
+            out.r(&format!("leaks.abandon-leaves-the-others-alone {}", label), o.trace.iter().any(|t| t.starts_with("cli done 1 frame:")), &ev);
+        }
+    }
     let n = if thorough { 80000 } else { 2000 };
     for k in 0..n {
         let n_ops = rng.range(3, if thorough { 40 } else { 14 }) as usize;
